@@ -1,1 +1,137 @@
+(* What the harness observes of the implementation and the executable checkers of the
+   two properties.  No proofs in this file (soundness lemmas are in ReaderProofs). *)
+From Coq Require Import List Bool Arith NArith ZArith.
+From Coq Require Import Init.Byte.
+From LMBase Require Import Res IEEE.
+From LMTransfac Require Import Bytes Nom Dec2F32 TransfacParse TransfacReader.
+Import ListNotations.
 
+(* ---- the observable part of a record ---- *)
+
+Record oref := mkORef {
+  or_local : N; or_xref : option str; or_title : option str; or_link : option str; or_pmid : option str }.
+
+Record orecord := mkORec {
+  o_id : option str;
+  o_ac : option str;
+  o_name : option str;
+  o_desc : option str;
+  o_data : option (list (list Z));      (* f32 bit patterns, canonical NaN *)
+  o_refs : list oref;
+  o_counts : option (list (list Z)) }.  (* Record::to_counts *)
+
+Inductive obs :=
+| BRec (r : orecord)
+| BErr (e : error)
+| BEnd
+| BPanic
+| BHang.
+
+(* ---- model record -> observable record ---- *)
+
+Definition cell_f32 (c : cell) : F32.t :=
+  match c with CZero => F32.zero | CTok t => f32_of_token t end.
+
+Fixpoint map_opt {A B} (f : A -> option B) (l : list A) : option (list B) :=
+  match l with
+  | [] => Some []
+  | x :: t => match f x, map_opt f t with
+              | Some y, Some r => Some (y :: r)
+              | _, _ => None
+              end
+  end.
+
+(* Record::to_counts: None when a cell is not an integer value (x.round() != x, true
+   for NaN), else `x.round() as u32` (saturating); CountMatrix::new never fails *)
+Definition count_of (x : F32.t) : option Z :=
+  let r := F32.round x in
+  if F32.eq r x then Some (F32.to_u32 r) else None.
+
+Definition to_counts (m : list (list cell)) : option (list (list Z)) :=
+  map_opt (map_opt (fun c => count_of (cell_f32 c))) m.
+
+Definition observe_ref (r : reference) : oref :=
+  mkORef (ref_local r) (ref_xref r) (ref_title r) (ref_link r) (ref_pmid r).
+
+Definition observe_record (r : record) : orecord :=
+  mkORec (r_id r) (r_ac r) (r_name r) (r_desc r)
+         (option_map (map (map (fun c => F32.to_bits (cell_f32 c)))) (r_data r))
+         (map observe_ref (r_refs r))
+         (match r_data r with Some m => to_counts m | None => None end).
+
+Definition observe (o : outcome) : obs :=
+  match o with
+  | ORec r => BRec (observe_record r)
+  | OErr e => BErr e
+  | OEnd => BEnd
+  end.
+
+Definition observe_run (x : res (list outcome)) : list obs :=
+  match x with
+  | Ok l => map observe l
+  | Err _ => [BPanic]
+  | Panic _ => [BPanic]
+  | OutOfFuel => [BHang]
+  end.
+
+(* ---- boolean equality of observations ---- *)
+
+Definition opt_eqb {A} (eq : A -> A -> bool) (a b : option A) : bool :=
+  match a, b with
+  | None, None => true
+  | Some x, Some y => eq x y
+  | _, _ => false
+  end.
+
+Fixpoint list_eqb {A} (eq : A -> A -> bool) (a b : list A) : bool :=
+  match a, b with
+  | [], [] => true
+  | x :: a', y :: b' => eq x y && list_eqb eq a' b'
+  | _, _ => false
+  end.
+
+Definition oref_eqb (a b : oref) : bool :=
+  N.eqb (or_local a) (or_local b) && opt_eqb str_eqb (or_xref a) (or_xref b) &&
+  opt_eqb str_eqb (or_title a) (or_title b) && opt_eqb str_eqb (or_link a) (or_link b) &&
+  opt_eqb str_eqb (or_pmid a) (or_pmid b).
+
+Definition orecord_eqb (a b : orecord) : bool :=
+  opt_eqb str_eqb (o_id a) (o_id b) && opt_eqb str_eqb (o_ac a) (o_ac b) &&
+  opt_eqb str_eqb (o_name a) (o_name b) && opt_eqb str_eqb (o_desc a) (o_desc b) &&
+  opt_eqb (list_eqb (list_eqb Z.eqb)) (o_data a) (o_data b) &&
+  list_eqb oref_eqb (o_refs a) (o_refs b) &&
+  opt_eqb (list_eqb (list_eqb Z.eqb)) (o_counts a) (o_counts b).
+
+Definition error_eqb (a b : error) : bool :=
+  match a, b with EIo, EIo | ENom, ENom => true | _, _ => false end.
+
+Definition obs_eqb (a b : obs) : bool :=
+  match a, b with
+  | BRec x, BRec y => orecord_eqb x y
+  | BErr x, BErr y => error_eqb x y
+  | BEnd, BEnd | BPanic, BPanic | BHang, BHang => true
+  | _, _ => false
+  end.
+
+(* ---- C15: records, then exactly one error or end of input; no panic, no hang ---- *)
+
+Fixpoint check_c15 (o : list obs) : bool :=
+  match o with
+  | [] => false
+  | [BErr _] | [BEnd] => true
+  | BRec _ :: t => check_c15 t
+  | _ => false
+  end.
+
+(* ---- C14: exactly the expected records, in order, then end of input ---- *)
+
+Definition check_c14 (expected : list record) (o : list obs) : bool :=
+  list_eqb obs_eqb o (map (fun r => BRec (observe_record r)) expected ++ [BEnd]).
+
+(* index of the first position where two observation sequences differ (for messages) *)
+Fixpoint first_diff (a b : list obs) (k : nat) : option nat :=
+  match a, b with
+  | [], [] => None
+  | x :: a', y :: b' => if obs_eqb x y then first_diff a' b' (S k) else Some k
+  | _, _ => Some k
+  end.
